@@ -133,6 +133,7 @@ func (e *Engine) verifyOnce(fc *FnContract, path string) (rep *FuncReport) {
 	X.FreshBase[e.alloc0.ID()] = true
 	st.Alloc = e.alloc0
 	e.pc = X.True
+	e.applyInit(st, fn)
 	e.assume(X.Ule(X.Const(0x100000, 32), e.alloc0))
 	e.assume(X.Ule(e.alloc0, X.Const(0x7fffffff, 32)))
 	e.freshBase = e.alloc0
@@ -277,10 +278,6 @@ func (e *Engine) observeParam(name string, v Val, st *State) ParamInfo {
 
 // ---- pieces not needed by the first clients; they bail so the function is reported out of reach.
 
-func (e *Engine) invoke(f *frame, x *ssa.Call, recv Val, m *types.Func, args []Val) Val {
-	bail("interface method call %s", m.Name())
-	return Val{}
-}
 func (e *Engine) appendBuiltin(f *frame, x *ssa.Call, args []Val) Val {
 	bail("append")
 	return Val{}
@@ -297,16 +294,13 @@ func (e *Engine) lookup(f *frame, x *ssa.Lookup) Val {
 	bail("map lookup")
 	return Val{}
 }
-func (e *Engine) makeMap(f *frame, x *ssa.MakeMap) Val  { bail("make(map)"); return Val{} }
-func (e *Engine) mapUpdate(f *frame, x *ssa.MapUpdate)  { bail("map update") }
-func (e *Engine) mapLen(f *frame, m Val) Val            { bail("len(map)"); return Val{} }
-func (e *Engine) mapDelete(f *frame, m, k Val)          { bail("delete") }
-func (e *Engine) rangeStart(f *frame, x *ssa.Range) Val { bail("range over map/string"); return Val{} }
-func (e *Engine) rangeNext(f *frame, x *ssa.Next) Val   { bail("range next"); return Val{} }
-func (e *Engine) concreteTypes() []types.Type           { return nil }
-func (e *Engine) stdModel(f *frame, fn *ssa.Function, args []Val, pos token.Pos) (Val, bool) {
-	return Val{}, false
-}
+func (e *Engine) makeMap(f *frame, x *ssa.MakeMap) Val                          { bail("make(map)"); return Val{} }
+func (e *Engine) mapUpdate(f *frame, x *ssa.MapUpdate)                          { bail("map update") }
+func (e *Engine) mapLen(f *frame, m Val) Val                                    { bail("len(map)"); return Val{} }
+func (e *Engine) mapDelete(f *frame, m, k Val)                                  { bail("delete") }
+func (e *Engine) copyMap(is, st *State, v Val, seen map[string]bool, depth int) {}
+func (e *Engine) rangeStart(f *frame, x *ssa.Range) Val                         { bail("range over map/string"); return Val{} }
+func (e *Engine) rangeNext(f *frame, x *ssa.Next) Val                           { bail("range next"); return Val{} }
 
 // markOld records that the references of an input value predate every allocation of the call.
 func (e *Engine) markOld(v Val) {
@@ -321,4 +315,229 @@ func (e *Engine) markOld(v Val) {
 			e.X.OldRef[v.C[i].ID()] = true
 		}
 	}
+}
+
+// applyInit gives package-level variables the values computed by symbolically executing the
+// package initialisers (objects they allocate get constant references below every run-time
+// allocation). If an initialiser leaves the supported subset the variables stay unconstrained
+// (error variables: distinct non-nil constants).
+func (e *Engine) applyInit(st *State, fn *ssa.Function) {
+	pkg := fn.Pkg
+	if pkg == nil && fn.Parent() != nil {
+		pkg = fn.Parent().Pkg
+	}
+	if pkg == nil {
+		return
+	}
+	is, ok := e.initCache[pkg]
+	if !ok {
+		is = e.runInit(pkg)
+		e.initCache[pkg] = is
+	}
+	if is == nil {
+		return
+	}
+	// only what the function (and the functions it can reach) mentions is brought in: the values
+	// of those package-level variables and the objects reachable from them
+	seen := map[string]bool{}
+	for _, g := range e.referencedGlobals(fn) {
+		gp := e.globalPtr(g)
+		if gp.Cell != nil {
+			v, ok := is.Cells[gp.Cell]
+			if !ok {
+				continue
+			}
+			st.Cells[gp.Cell] = v
+			e.copyReachable(is, st, v, seen, 0)
+			continue
+		}
+		e.copyObject(is, st, gp, seen, 0)
+	}
+}
+
+// copyObject copies the object gp points to (and what it references) from the init state.
+func (e *Engine) copyObject(is, st *State, ptr Val, seen map[string]bool, depth int) {
+	if depth > 6 || ptr.Cell != nil || len(ptr.C) == 0 || !ptr.C[0].IsConst() || ptr.C[0].V == 0 {
+		return
+	}
+	t := pointee(ptr.T)
+	for _, sl := range e.slotsFor(ptr, t) {
+		k := fmt.Sprintf("%s@%d", sl.key, ptr.C[0].V)
+		if seen[k] {
+			continue
+		}
+		seen[k] = true
+		src := e.heap(is, sl.key, sl.leaf)
+		dst := e.heap(st, sl.key, sl.leaf)
+		st.Heaps[sl.key] = e.X.Store(dst, ptr.C[0], e.X.Select(src, ptr.C[0]))
+	}
+	switch u := t.Underlying().(type) {
+	case *types.Struct:
+		v := e.load(is, ptr)
+		e.copyReachable(is, st, v, seen, depth+1)
+	case *types.Array:
+		if u.Len() <= 1024 {
+			if _, basic := u.Elem().Underlying().(*types.Basic); !basic {
+				for i := int64(0); i < u.Len(); i++ {
+					ep := Val{T: types.NewPointer(u.Elem()), C: []*smt.Term{ptr.C[0], e.X.Const(uint64(i), 64)}, Root: RootArr, RootT: typeKey(u.Elem())}
+					e.copyReachable(is, st, e.load(is, ep), seen, depth+1)
+				}
+			}
+		}
+	}
+}
+
+// copyReachable follows the references inside a value.
+func (e *Engine) copyReachable(is, st *State, v Val, seen map[string]bool, depth int) {
+	if depth > 6 || v.Tup != nil {
+		return
+	}
+	switch u := v.T.Underlying().(type) {
+	case *types.Pointer:
+		if v.Cell == nil && len(v.C) == 2 {
+			e.copyObject(is, st, v, seen, depth+1)
+		}
+	case *types.Slice:
+		if len(v.C) == 4 && v.C[0].IsConst() && v.C[0].V != 0 && v.C[2].IsConst() && v.C[2].V <= 4096 {
+			for _, c := range comps(u.Elem()) {
+				key := "arr:" + typeKey(u.Elem()) + "/" + c.Suffix
+				k := fmt.Sprintf("%s@%d", key, v.C[0].V)
+				if seen[k] {
+					continue
+				}
+				seen[k] = true
+				src := e.heap(is, key, c.Sort)
+				dst := e.heap(st, key, c.Sort)
+				st.Heaps[key] = e.X.Store(dst, v.C[0], e.X.Select(src, v.C[0]))
+			}
+			if _, basic := u.Elem().Underlying().(*types.Basic); !basic {
+				for i := uint64(0); i < v.C[2].V; i++ {
+					ep := Val{T: types.NewPointer(u.Elem()), C: []*smt.Term{v.C[0], e.X.BVAdd(v.C[1], e.X.Const(i, 64))}, Root: RootArr, RootT: typeKey(u.Elem())}
+					e.copyReachable(is, st, e.load(is, ep), seen, depth+1)
+				}
+			}
+		}
+	case *types.Struct:
+		lo := 0
+		for i := 0; i < u.NumFields(); i++ {
+			n := len(comps(u.Field(i).Type()))
+			fv := Val{T: u.Field(i).Type(), C: v.C[lo : lo+n]}
+			e.setPtrMeta(&fv)
+			e.copyReachable(is, st, fv, seen, depth+1)
+			lo += n
+		}
+	case *types.Interface:
+		// payloads of the library's pointer types
+		if len(v.C) == 2 && v.C[0].IsConst() {
+			if t, ok := e.tagTypes[int(v.C[0].V)]; ok {
+				if _, isPtr := t.Underlying().(*types.Pointer); isPtr {
+					e.copyObject(is, st, e.fromInterface(v, t), seen, depth+1)
+				}
+			}
+		}
+	case *types.Map:
+		e.copyMap(is, st, v, seen, depth)
+	}
+}
+
+// referencedGlobals: package-level variables mentioned by fn or by functions reachable from it.
+func (e *Engine) referencedGlobals(fn *ssa.Function) []*ssa.Global {
+	if gs, ok := e.refGlobCache[fn]; ok {
+		return gs
+	}
+	seenF := map[*ssa.Function]bool{}
+	seenG := map[*ssa.Global]bool{}
+	var out []*ssa.Global
+	var walk func(f *ssa.Function, depth int)
+	walk = func(f *ssa.Function, depth int) {
+		if f == nil || seenF[f] || depth > 12 {
+			return
+		}
+		seenF[f] = true
+		if !e.inRepo(f) && !e.isSpecFunc(f) {
+			return
+		}
+		for _, b := range f.Blocks {
+			for _, ins := range b.Instrs {
+				var ops []*ssa.Value
+				for _, op := range ins.Operands(ops) {
+					if op == nil || *op == nil {
+						continue
+					}
+					switch x := (*op).(type) {
+					case *ssa.Global:
+						if !seenG[x] {
+							seenG[x] = true
+							out = append(out, x)
+						}
+					case *ssa.Function:
+						walk(x, depth+1)
+					case *ssa.MakeClosure:
+						if cf, ok := x.Fn.(*ssa.Function); ok {
+							walk(cf, depth+1)
+						}
+					}
+				}
+				if c, ok := ins.(ssa.CallInstruction); ok {
+					if callee := c.Common().StaticCallee(); callee != nil {
+						walk(callee, depth+1)
+					} else if c.Common().IsInvoke() {
+						// interface calls: every implementation in the repository
+						for _, t := range e.concreteTypes() {
+							ms := e.Prog.MethodSets.MethodSet(t)
+							if sel := ms.Lookup(c.Common().Method.Pkg(), c.Common().Method.Name()); sel != nil {
+								walk(e.Prog.MethodValue(sel), depth+1)
+							}
+						}
+					}
+				}
+			}
+		}
+		// contract clause functions of this function mention globals too (gots.ErrX in ensures)
+		if fc, ok := e.Contracts[f]; ok {
+			for _, cl := range fc.C.Requires {
+				walk(f.Pkg.Func(cl.Func), depth+1)
+			}
+			for _, cl := range fc.C.Ensures {
+				walk(f.Pkg.Func(cl.Func), depth+1)
+			}
+		}
+	}
+	walk(fn, 0)
+	e.refGlobCache[fn] = out
+	return out
+}
+
+func (e *Engine) runInit(pkg *ssa.Package) (out *State) {
+	initFn := pkg.Func("init")
+	if initFn == nil || len(initFn.Blocks) == 0 {
+		return nil
+	}
+	defer func() {
+		if r := recover(); r != nil {
+			if u, ok := r.(unsupported); ok {
+				e.Notes = append(e.Notes, "package initialiser of "+pkg.Pkg.Path()+" not evaluated: "+u.Error())
+				if os.Getenv("GOVC_DEBUG") != "" {
+					fmt.Fprintln(os.Stderr, e.Notes[len(e.Notes)-1])
+				}
+				out = nil
+				return
+			}
+			panic(r)
+		}
+	}()
+	st := &State{Heaps: map[string]*smt.Term{}, Cells: map[*Cell]Val{}, Alloc: e.X.Const(0x1000, 32)}
+	savedPC, savedSpec, savedFrame := e.pc, e.specDepth, e.frameOn
+	savedAss := len(e.Assumptions)
+	e.pc = e.X.True
+	e.specDepth++
+	e.inInit = true
+	e.frameOn = false
+	defer func() {
+		e.pc, e.specDepth, e.frameOn, e.inInit = savedPC, savedSpec, savedFrame, false
+		// facts recorded while evaluating initialisers are definitional; keep them
+		_ = savedAss
+	}()
+	_, st2, _ := e.runFunc(initFn, nil, nil, st, nil)
+	return st2
 }
